@@ -248,23 +248,27 @@ def check(ctx, run):
         kw = v.kwd()
         lo = kw.get("min", v.args[1] if len(v.args) > 1 else None)
         hi = kw.get("max", v.args[2] if len(v.args) > 2 else None)
-        calls = [e for e in res[0]["events"] if e["kind"] == "call" and e["callee"] == E.F + "ww_width"]
         dcalls = [e for e in res[0]["events"] if e["kind"] == "opaque_call" and e["callee"] == Sym("ww.bs", ("callable",))]
-        okf = lo is not None and hi is not None and len(calls) == 1 and len(dcalls) >= 1
+        # the gamma the width is computed from: the pricing module's gamma (whether the width goes through ww_width or is written out in place
+        # makes no difference: the band itself is compared with the documented formula)
+        gammas = []
+        for t_ in (list(walk(lo)) + list(walk(hi))) if lo is not None and hi is not None else []:
+            if isinstance(t_, Op) and t_.op == "gamma" and t_.args and t_.args[0] == Sym("ww.bs", ("callable",)) and t_ not in gammas:
+                gammas.append(t_)
+        okf = lo is not None and hi is not None and len(gammas) == 1 and len(dcalls) >= 1
         if okf:
             delta = Op("call", (Sym("ww.bs", ("callable",)), feats))
-            ckw = dict(calls[0]["kwargs"])
-            for k_, v_ in zip(("gamma", "spot", "cost", "a"), calls[0]["args"]):
-                ckw[k_] = v_
-            from ..termination import simp as _simp
-            # width is whatever ww_width returned for these arguments: recover it as (hi - lo) / 2 and delta as (hi + lo) / 2
-            okf = same(Op("add", (lo, hi)), Op("mul", (2, delta)), keep_shape_ops=False)
+            spot_ = Op("mul", (W.fl("K"), Op("exp", (Op("index", (feats, (Ellipsis, [0]))),))))
+            cost_ = next((t_ for t_ in walk(hi) if isinstance(t_, Sym) and t_.name == "deriv.ul.cost"), None)
+            okf = cost_ is not None
+            # the band is centred at delta: (lo + hi) / 2 == delta, and it is not empty
+            okf = okf and same(Op("add", (lo, hi)), Op("mul", (2, delta)), keep_shape_ops=False)
             okf = okf and not same(lo, hi, keep_shape_ops=False)
-            okf = okf and ckw.get("a") == a_ and str(ckw.get("cost")) == "deriv.ul.cost"
-            okf = okf and same(ckw.get("spot"), Op("mul", (W.fl("K"), Op("exp", (Op("index", (feats, (Ellipsis, [0]))),)))))
-            # the band is centred at delta with half-width = the value of that ww_width call
-            width_val = [e["value"] for e in res[0]["events"] if e["kind"] == "exit" and e.get("callee") == E.F + "ww_width"]
-            okf = okf and len(width_val) == 1 and same(Op("sub", (hi, lo)), Op("mul", (2, width_val[0])), keep_shape_ops=False)
+            # its half-width is (3 c gamma^2 S / (2 a))^(1/3) with S = K e^s, c the underlier's cost and a the module's risk aversion
+            if okf:
+                from fractions import Fraction
+                width_ = Op("pow", (Op("div", (Op("mul", (Op("mul", (Op("mul", (cost_, Fraction(3, 2))), Op("square", (gammas[0],)))), spot_)), a_)), Fraction(1, 3)))
+                okf = same(Op("sub", (hi, lo)), Op("mul", (2, width_)), keep_shape_ops=False)
     run.oblige("C20.R3", "WhalleyWilmott.forward == clamp(prev_hedge, delta - width, delta + width)", okf, str(v)[:200])
     if not okf:
         run.fail(Finding("C20.R3", fwd.qualname, str(v)[:200], "the no-transaction band is not [delta - width, delta + width] around the Black-Scholes delta with width(gamma, K e^s, cost, a)",
